@@ -330,6 +330,10 @@ func exportAST(args []string) int {
 			ID     string   `json:"id"`
 			Src    string   `json:"src"`
 			Inputs []string `json:"inputs"`
+			Events []struct {
+				Ev   string `json:"ev"`
+				Args []any  `json:"args"`
+			} `json:"events"`
 		}
 		if err := json.Unmarshal(sc.Bytes(), &c); err != nil {
 			continue
@@ -344,7 +348,33 @@ func exportAST(args []string) int {
 		for _, s := range c.Inputs {
 			inputs = append(inputs, cps(s))
 		}
-		b, _ := json.Marshal(map[string]any{"fam": "Doc", "class": c.ID, "prog": prog, "inputs": inputs, "events": []any{},
+		events := []any{}
+		bad := ""
+		for _, e := range c.Events {
+			args := []any{}
+			for _, a := range e.Args {
+				switch v := a.(type) {
+				case string:
+					args = append(args, map[string]any{"t": "str", "cp": cps(v)})
+				case float64:
+					func() {
+						defer func() {
+							if r := recover(); r != nil {
+								bad = "event argument outside the exact domain"
+							}
+						}()
+						args = append(args, dyadic(v))
+					}()
+				}
+			}
+			events = append(events, map[string]any{"ev": e.Ev, "args": args})
+		}
+		if bad != "" {
+			b, _ := json.Marshal(map[string]any{"id": c.ID, "why": bad})
+			skip.Write(append(b, '\n'))
+			continue
+		}
+		b, _ := json.Marshal(map[string]any{"fam": "Doc", "class": c.ID, "prog": prog, "inputs": inputs, "events": events,
 			"failFast": false, "noSummary": false, "tag": []any{}, "text": cps(strings.TrimRight(c.Src, "\n") + "\n")})
 		out.Write(append(b, '\n'))
 	}
